@@ -270,7 +270,10 @@ theorem derive_flags_not_copied {O : Oracles} {w : World} (hS : HasStructure w) 
     rw [mroSeqs, hbd]; rfl
   have htail : mroTail w (derivedSrc c nm (derivedFields c op) (derivedRequired c op)) = ["Structure"] := by
     simp [mroTail, hseq, c3_structure]
-  refine ⟨rfl, ?_, rfl, rfl, ?_⟩
+  refine ⟨rfl, ?_, ?_, rfl, ?_⟩
+  · show ((derivedSrc c nm _ _).addl.orElse fun _ => inheritedOpt w (·.ownAddl) (mroTail w _)).getD true = true
+    rw [htail]
+    simp [inheritedOpt, hS', World.builtin, derivedSrc]
   · show ((derivedSrc c nm _ _).addl.orElse fun _ => inheritedOpt w (·.ownAddl) (mroTail w _)).getD true = true
     rw [htail]
     simp [inheritedOpt, hS', World.builtin, derivedSrc]
@@ -430,15 +433,29 @@ theorem allRequired_constant_example :
     ∧ (getCls constWorld "R").constants.map (·.1) = ["c"] := by
   decide
 
-/-- finding `required-set:extend:source-requires-field-with-default`: a subclass may list an
-    inherited field that has a default in `_required`; Extend (and Omit / Pick) drop it again -/
+/-- fixed route of finding `required-set:*:source-requires-field-with-default`: a subclass that
+    lists an inherited field with a default in `_required` does not require it ("every field that has
+    a default value is, by definition, optional"), so Extend agrees with its source -/
 def reqDefWorld : World :=
   runSteps exO W0 [.define { name := "A", bases := ["Structure"], entries := [("a", strD)] },
                    .define { name := "S", bases := ["A"], entries := [("b", intF)], required := some ["a", "b"] },
                    .derive .extend "S" "ES"]
 
+theorem fixed_inherited_default_not_required :
+    (getCls reqDefWorld "S").required = ["b"] ∧ (getCls reqDefWorld "ES").required = ["b"] := by
+  decide
+
+/-- finding `required-set:extend:source-requires-field-with-default` (remaining route): with two
+    bases the later one's required parameter is required in the subclass although the Field object
+    the subclass holds (the earlier base's) has a default; Extend (and Omit / Pick) drop it -/
+def reqDefWorld2 : World :=
+  runSteps exO W0 [.define { name := "K1", bases := ["Structure"], entries := [("e", intF)] },
+                   .define { name := "K2", bases := ["Structure"], entries := [("e", strD)] },
+                   .define { name := "K3", bases := ["K2", "K1"], entries := [] },
+                   .derive .extend "K3" "E3"]
+
 theorem extend_drops_required :
-    (getCls reqDefWorld "S").required = ["a", "b"] ∧ (getCls reqDefWorld "ES").required = ["b"] := by
+    (getCls reqDefWorld2 "K3").required = ["e"] ∧ (getCls reqDefWorld2 "E3").required = [] := by
   decide
 
 /-- non-vacuity: operators and a composition on a class with inheritance, a default and
